@@ -2,8 +2,8 @@ package main
 
 import (
 	"fmt"
-	"os"
 	"go/types"
+	"os"
 	"sort"
 	"strings"
 
@@ -381,9 +381,9 @@ func checkRefsFor(p *Program, r *Report) {
 	{
 		f := p.MustFunc("(*Reader).refsForIndexed")
 		cfg := &simCfg{
-			Event:  map[string]bool{"(*Reader).seek": true, "(*tableIter).Next": true, "(*Reader).newBlockReader": true, "(*Reader).refsForLinear": true},
-			Pure:   map[string]bool{"(*objRecord).key": true},
-			Inline: map[string]bool{"(*indexedTableRefIter).nextBlock": true, "(*blockReader).start": true},
+			Event:           map[string]bool{"(*Reader).seek": true, "(*tableIter).Next": true, "(*Reader).newBlockReader": true, "(*Reader).refsForLinear": true},
+			Pure:            map[string]bool{"(*objRecord).key": true},
+			Inline:          map[string]bool{"(*indexedTableRefIter).nextBlock": true, "(*blockReader).start": true},
 			NoInlineDefault: true,
 		}
 		c, _ := runSim(p, f, cfg, nil)
@@ -410,6 +410,54 @@ func checkRefsFor(p *Program, r *Report) {
 			}
 		}
 		r.floor("ITER-POSITIONED", n, 1, "successful returns of the indexed RefsFor")
+	}
+	// ---- OMITTED-FALLBACK: an object found in the index is never answered with the
+	// empty iterator (an omitted position list means "scan", not "no refs")
+	{
+		f := p.MustFunc("(*Reader).refsForIndexed")
+		cfg := &simCfg{
+			Event:  map[string]bool{"(*Reader).seek": true, "(*tableIter).Next": true, "(*Reader).newBlockReader": true, "(*Reader).refsForLinear": true},
+			Pure:   map[string]bool{"(*objRecord).key": true},
+			Opaque: map[string]bool{"(*indexedTableRefIter).nextBlock": true, "fmt.Errorf": true},
+		}
+		c, _ := runSim(p, f, cfg, nil)
+		nFound := 0
+		key := "(*Reader).refsForIndexed / an indexed object is never answered with the empty iterator"
+		bad := false
+		for _, s := range c.Samples {
+			if s.Kind != "ret" || s.Panic || len(s.Vals) != 2 || s.St.truth(tEq(s.Vals[1], tNil)) == 0 {
+				continue
+			}
+			found := false
+			for k, v := range s.St.facts {
+				t := s.St.fterm[k]
+				if v && t != nil && t.Op == "eq" && len(t.Args) == 2 && t.Args[0].Op == "pcall" && t.Args[1].Op == "pcall" &&
+					t.Args[0].Aux == "(*objRecord).key" && t.Args[1].Aux == "(*objRecord).key" {
+					found = true
+				}
+			}
+			if os.Getenv("RSA_DEBUG") == "15" {
+				fmt.Fprintf(os.Stderr, "refsForIndexed ret found=%v val=%s events=%d\n", found, s.Vals[0].key, len(s.Events))
+			}
+			if !found {
+				continue
+			}
+			nFound++
+			empty := false
+			if s.Vals[0].Op == "alloc" {
+				if impl, ok := s.St.mem[mk("field", "Iterator.impl", nil, s.Vals[0]).key]; ok && impl.val.Typ != nil && strings.Contains(impl.val.Typ.String(), "emptyIterator") {
+					empty = true
+				}
+			}
+			if empty || s.Vals[0].isNilConst() {
+				bad = true
+				r.violate("OMITTED-FALLBACK", key, p.pos(f.Pos()), "on a path where the object's record was found in the object index, RefsFor answers with an empty iterator: an object whose position list the writer omitted (too many ref blocks) is reported as unreferenced", witnessOf(p, s.St.trace))
+			}
+		}
+		if !bad {
+			r.ok("OMITTED-FALLBACK", key, fmt.Sprintf("%d found-paths end in the indexed iterator or the linear scan", nFound))
+		}
+		r.floor("OMITTED-FALLBACK", nFound, 2, "paths of the indexed RefsFor on which the object's record was found")
 	}
 	// ---- OBJ-INDEX-SOURCE: the object index is fed from Value and TargetValue of every ref written
 	{
@@ -542,6 +590,8 @@ func checkAccessors(p *Program, r *Report) {
 func init() {
 	checks["C11"] = func(p *Program, r *Report) {
 		checkRefsFor(p, r)
+		// object-index keys are raw hash bytes
+		checkKeyBytewise(p, r)
 		// nil contracts on the RefsFor paths
 		cg := buildCallGraph(p)
 		reach := cg.reachable(hostileRoots(p, cg))
